@@ -120,7 +120,14 @@ def allocLoop (expected : Nat) (buffer : Bytes) : List Frag → Option Bytes
     if expected != f.off then none
     else allocLoop (f.off + f.payload.length) (buffer ++ f.payload) rest
 
-def allocBuf (s : Stream) : Option Bytes := allocLoop 0 [] s.frags
+/-- `IP::header_size()` of a header with `nopt` words of (padded) options -/
+def hdrSize (h : Hdr) : Nat := 20 + 4 * h.nopt
+
+/-- `IPv4Stream::allocate_pdu` up to the call of `pdu_from_flag`: `none` = `return 0`.
+    `if (first_fragment_.header_size() + total_size_ > 65535) return 0;` (RFC 791: a datagram holds at most 65535
+    bytes, header included — fix KF-C08-6), then the concatenation loop -/
+def allocBuf (s : Stream) : Option Bytes :=
+  if hdrSize s.first + s.total > 65535 then none else allocLoop 0 [] s.frags
 
 /-- `key_type`: identification, source, destination, protocol (RFC 791 buffer identifier) -/
 structure Key where
